@@ -2142,8 +2142,14 @@ class Machine:
         self.worklist = []
         self.push_call(st, info, [], None, None)
         self.worklist.append(st)
+        rng = getattr(self, "order_rng", None)
         while self.worklist:
-            st = self.worklist.pop()
+            if rng is not None and len(self.worklist) < 512:
+                # seed-dependent exploration order (budgeted thorough tiers); falls back to DFS when the
+                # frontier grows, to bound memory
+                st = self.worklist.pop(rng.randrange(len(self.worklist)))
+            else:
+                st = self.worklist.pop()
             if self.stats.paths >= self.path_budget:
                 raise Budget("path budget exhausted")
             try:
